@@ -98,6 +98,35 @@ Theorem c11_wrapper_transparent : forall sw adm f b,
 Proof. exact wrapper_transparent. Qed.
 Print Assumptions c11_wrapper_transparent.
 
+(* the ctx handed to TransactCtx (conn level and through sqlc.CachedConn) only reaches the body: unless the
+   body itself issues statements with an already finished ctx, a ctx that is cancelled / expired - before
+   the call or right after the body's last statement - changes NOTHING: same result, same driver calls *)
+Theorem c11_ctx_end_keeps_outcome : forall sw adm cx bound f b,
+  (bound = false \/ cx = CLive \/ exists k, cx = CDoneAfterBody k) ->
+  transact_ctx_with sw adm cx bound f b = transact_ctx sw adm f b /\
+  cached_transact_ctx_with sw adm cx bound f b = transact_ctx sw adm f b.
+Proof. exact ctx_end_keeps_outcome. Qed.
+Print Assumptions c11_ctx_end_keeps_outcome.
+
+(* in particular a body returning nil under such a ctx COMMITS, and the result is the commit's own error
+   (nil when the commit succeeds) - never ctx.Err() *)
+Theorem c11_ctx_done_body_nil_commits : forall sw cx bound f b,
+  (bound = false \/ cx = CLive \/ exists k, cx = CDoneAfterBody k) ->
+  f_begin f = false -> fst (run_body sw b) = ONil ->
+  fst (transact_ctx_with sw true cx bound f b) = (if f_commit f then Some (e_commit f) else None) /\
+  terminals (snd (transact_ctx_with sw true cx bound f b)) = [Commit (negb (f_commit f))].
+Proof. exact ctx_done_body_nil_commits. Qed.
+Print Assumptions c11_ctx_done_body_nil_commits.
+
+(* and under EVERY ctx state, also when the body's own statements are refused by database/sql:
+   nil result <=> the calls end with the one successful Commit (a non-nil result: exactly one Rollback
+   or the failed Commit, by c11_exactly_one_terminal on the same term) *)
+Theorem c11_ctx_nil_iff_commit : forall sw adm cx bound f b,
+  fst (transact_ctx_with sw adm cx bound f b) = None <->
+  exists pre, snd (transact_ctx_with sw adm cx bound f b) = pre ++ [Commit true] /\ terminals pre = [].
+Proof. intros. unfold transact_ctx_with. apply nil_iff_commit. Qed.
+Print Assumptions c11_ctx_nil_iff_commit.
+
 (* Model refines Spec: what the transcription does is allowed by the outcome table that spec_ok
    evaluates on the observations (which does not mention the switches) *)
 Theorem c11_tx_refines_spec : forall sw f b,
@@ -251,6 +280,13 @@ Example c11_tx_examples :
   (* persistently bad: three attempts, driver.ErrBadConn comes back, nothing else *)
   transact sw (mkfaults (FKind KBadConn) 5 FNone FNone) (mkbody [mkstmt SExec FNone RReturn] ONil) =
     (Some (EKind KBadConn), [Begin false; Begin false; Begin false]) /\
+  (* a body whose ctx-bound statements meet an already expired ctx: no statement reaches the driver, the
+     body returns ctx.Err(), one Rollback *)
+  transact_ctx_with sw true (CDoneBefore KDeadline) true no_faults (mkbody [mkstmt SExec FNone RReturn] ONil) =
+    (Some (EKind KDeadline), [Begin true; Rollback true]) /\
+  (* the same body with the plain Session methods: commits, nil *)
+  transact_ctx_with sw true (CDoneBefore KDeadline) false no_faults (mkbody [mkstmt SExec FNone RReturn] ONil) =
+    (None, [Begin true; Exec 0 true; Commit true]) /\
   (* a cancelled context at Begin is not retried *)
   transact sw (mkfaults (FKind KCanceled) 1 FNone FNone) (mkbody [] ONil) = (Some (EKind KCanceled), [Begin false]).
 Proof. repeat split. Qed.
